@@ -32,11 +32,13 @@ Inductive cop :=
 | CNtfns (l : list ntfn)                            (* chain.FilteredBlockConnected: the block's relevant transactions,
                                                        one addRelevantTx each inside ONE Update (the model's addRelevantTx
                                                        never fails, so this is the sequence of RelevantTx notifications) *)
-| CStartup (first : bool) (backend : list seg) (loc : bmeta) (* one attempt of syncWithChain up to the rescan request (observed at
+| CStartup (first rec : bool) (backend : list seg) (loc : bmeta) (txs : list rtx) (* one attempt of syncWithChain up to the rescan request (observed at
                                                        NotifyBlocks, or - a failed attempt - when waitForSync starts the
                                                        next one); [first] = no birthday block was stored when the backend
                                                        connected; [loc] = what locateBirthdayBlock returns on that backend
-                                                       (used only with [first]) *)
+                                                       (used only with [first]); [rec] = the wallet was opened with a
+                                                       recovery window, [txs] = the wallet transactions of [backend],
+                                                       in chain order (used only with [rec]) *)
 | CRescanProgress (backend : list seg) (height : Z) (* catchUpHashes *)
 | CRescanFinished (backend : list seg) (height : Z) (* catchUpHashes + SetChainSynced(true) *)
 | CReopen                                           (* stop, close, reopen: ChainSynced() = false *)
@@ -121,6 +123,7 @@ Definition txu (t : Z) : cop := CNtfn (NTx (Z.to_N t) false None).
 Definition filt (h hash tm : Z) (txs : list (Z * bool)) : cop :=
   CNtfns (map (fun t => NTx (Z.to_N t.1) t.2 (Some (mk h hash tm))) txs).
 Definition sg (n id0 t0 dt : Z) : seg := (Z.to_nat n, Z.to_N id0, t0, dt).
+Definition rt (t : Z) (cb : bool) (h hash tm : Z) : rtx := (Z.to_N t, cb, mk h hash tm).
 
 Record scase := {
   sc_init : bmeta;                       (* the new wallet's synced-to stamp (genesis) *)
@@ -132,7 +135,7 @@ Definition step (hdr : gmap N Z) (o : cop) (w : wallet) : result :=
   match o with
   | CNtfn n => handle hdr n w
   | CNtfns l => run hdr l w
-  | CStartup first c loc => startup first (expand c) hdr loc w
+  | CStartup first rec c loc txs => startup_rec first rec (expand c) hdr loc txs w
   | CRescanProgress c h => catch_up (expand c) hdr h w
   | CRescanFinished c h => rescan_finished (expand c) hdr h w
   | CReopen => ok (set_chain_synced false w)
@@ -146,12 +149,12 @@ Definition step (hdr : gmap N Z) (o : cop) (w : wallet) : result :=
     after a first synchronisation - raised by the pruning of PutSyncedTo. *)
 Definition next_lo (o : cop) (w w' : wallet) (lo : Z) : Z :=
   let lo1 := match o with
-             | CStartup true _ loc => if negb (birthday_set w) && birthday_set w' then m_height loc else lo
+             | CStartup true _ _ loc _ => if negb (birthday_set w) && birthday_set w' then m_height loc else lo
              | _ => lo
              end in
   Z.max lo1 (m_height (synced w') - max_reorg_depth + 1).
 
-Definition is_startup (o : cop) : bool := match o with CStartup _ _ _ => true | _ => false end.
+Definition is_startup (o : cop) : bool := match o with CStartup _ _ _ _ _ => true | _ => false end.
 
 Definition stamp_eqb (a b : bmeta) : bool :=
   (m_height a =? m_height b) && (m_hash a =? m_hash b)%N.
